@@ -72,11 +72,96 @@ func Graph(cfg *packages.Config, patterns ...string) ([]*loader.PackageSpec, err
 	if ok {
 		return r.specs, r.err
 	}
+	// A list of ./pN patterns selects a subset of the roots of ./... : derive
+	// it from the memoised full graph instead of paying for another `go list`
+	// (each costs 0.3-0.6 CPU-seconds in this sandbox). The derivation is
+	// validated against the real loader.Graph when Validate is set.
+	if sub := subsetOf(patterns); sub != nil {
+		fullKey := fmt.Sprintf("%s\x00%s\x00%v\x00%s\x00%s\x00%s", State, dir, tests, strings.Join(flags, "\x01"), strings.Join(env, "\x01"), "./...")
+		mu.Lock()
+		full, ok := memo[fullKey]
+		mu.Unlock()
+		if ok && full.err == nil {
+			derived := derive(full.specs, sub)
+			if derived != nil {
+				Derived++
+				if Validate {
+					real, err := loader.Graph(cfg, patterns...)
+					if err != nil || !sameRoots(real, derived) {
+						panic(fmt.Sprintf("verifhook: derived package graph for %v differs from go list's (err=%v): %v vs %v", patterns, err, ids(real), ids(derived)))
+					}
+				}
+				mu.Lock()
+				memo[key] = result{derived, nil}
+				mu.Unlock()
+				return derived, nil
+			}
+		}
+	}
 	specs, err := loader.Graph(cfg, patterns...)
 	mu.Lock()
 	memo[key] = result{specs, err}
 	mu.Unlock()
 	return specs, err
+}
+
+// Derived counts graphs derived from a memoised ./... graph; Validate makes
+// every derivation be compared with the real thing.
+var (
+	Derived  int
+	Validate bool
+)
+
+func subsetOf(patterns []string) []string {
+	if len(patterns) == 0 {
+		return nil
+	}
+	var out []string
+	for _, p := range patterns {
+		if !strings.HasPrefix(p, "./") || strings.ContainsAny(p[2:], "./*") || p == "./..." {
+			return nil
+		}
+		out = append(out, p[2:])
+	}
+	return out
+}
+
+func derive(full []*loader.PackageSpec, dirs []string) []*loader.PackageSpec {
+	var out []*loader.PackageSpec
+	seen := map[*loader.PackageSpec]bool{}
+	for _, d := range dirs {
+		found := false
+		for _, s := range full {
+			pp := s.PkgPath
+			if strings.HasSuffix(pp, "/"+d) || strings.HasSuffix(pp, "/"+d+"_test") || strings.HasSuffix(pp, "/"+d+".test") {
+				found = true
+				if !seen[s] {
+					seen[s] = true
+					out = append(out, s)
+				}
+			}
+		}
+		if !found {
+			return nil
+		}
+	}
+	sort.SliceStable(out, func(i, j int) bool { return out[i].ID < out[j].ID })
+	return out
+}
+
+func ids(specs []*loader.PackageSpec) []string {
+	var out []string
+	for _, s := range specs {
+		out = append(out, fmt.Sprintf("%s:%x", s.ID, s.Hash[:4]))
+	}
+	return out
+}
+
+func sameRoots(a, b []*loader.PackageSpec) bool {
+	x, y := ids(a), ids(b)
+	sort.Strings(x)
+	sort.Strings(y)
+	return strings.Join(x, "|") == strings.Join(y, "|")
 }
 
 // Forget drops the memo (used between unrelated workloads to bound memory).
